@@ -226,6 +226,14 @@ fn regex_values(r: &mut Rng, pattern: &str) -> Vec<Vec<u8>> {
         b"\xff".to_vec(),
         b"\"".to_vec(),
         b"ab]x".to_vec(),
+        // not UTF-8 in every way: lone continuation bytes, truncated and
+        // complete multi-byte sequences, at the start, inside and at the end
+        b"\x80abc".to_vec(),
+        b"\xa9".to_vec(),
+        b"a\xbf".to_vec(),
+        b"\xc3\xa9l".to_vec(),
+        b"h\xe2\x82".to_vec(),
+        b"\xe2\x82\xac".to_vec(),
     ];
     // strings built from the pattern's own literal characters
     let lits: Vec<u8> = pattern.bytes().filter(|c| c.is_ascii_alphanumeric()).collect();
@@ -238,7 +246,7 @@ fn regex_values(r: &mut Rng, pattern: &str) -> Vec<Vec<u8>> {
                         lits[r.below(lits.len())]
                     } else {
                         {
-                            let alpha: &[u8] = b"abAhel\"\\.x0 \xff\n";
+                            let alpha: &[u8] = b"abAhel\"\\.x0 \xff\n\x80\xbf\xc3\xa9";
                             alpha[r.below(alpha.len())]
                         }
                     }
@@ -479,9 +487,97 @@ fn limits_family(run: &Run, eng: &Eng) {
     let _ = Local::default();
 }
 
+/// Patterns that can match the empty string, anchored and not, on every value
+/// of length <= 3 over an alphabet of ASCII, newline, UTF-8 lead, continuation
+/// and invalid bytes: "byte-oriented" means a match may start and end between
+/// any two bytes, including inside what would be a UTF-8 sequence.
+fn regex_empty_family(run: &Run, eng: &Eng) {
+    let field = eng.scheme.get_field("str_m").unwrap();
+    const PATTERNS: &[&str] = &[
+        "", "^", "$", "^$", "a*", "^a*", "^a?", "a*$", "^a*$", "^(a|)", "(?:a|)$", "(a|b)*", "^(www\\.)?", "[^a]*",
+        "^[^a]*$", ".*", "^.*$", ".?", "^.?$", "^.?.?$", "\\x80*", "^\\x80", "^\\xbf?a", "\\xc3?$", "^[\\x80-\\xbf]*",
+        "^[\\x80-\\xbf]*$", "^[^\\x80]", "a?\\xa9?", "^\\xc3\\xa9", "^\\xc3", "\\xa9$", "^(?:\\xc3|)\\xa9", "^.\\xa9",
+        "^[\\x00-\\xff]", "^[\\x00-\\xff]?$", "(^|a)\\x80", "\\x80($|a)",
+    ];
+    const ALPHA: &[u8] = &[b'a', b'\n', 0x80, 0xa9, 0xbf, 0xc3, 0xff];
+    let mut values: Vec<Vec<u8>> = vec![vec![]];
+    for len in 1..=3usize {
+        let mut idx = vec![0usize; len];
+        loop {
+            values.push(idx.iter().map(|k| ALPHA[*k]).collect());
+            let mut p = 0;
+            while p < len {
+                idx[p] += 1;
+                if idx[p] < ALPHA.len() {
+                    break;
+                }
+                idx[p] = 0;
+                p += 1;
+            }
+            if p == len {
+                break;
+            }
+        }
+    }
+    run.exhaustive("regex-empty-matches", true);
+    run.parallel("regex-empty-matches", PATTERNS.len() as u64, |i, l| {
+        let pattern = PATTERNS[i as usize];
+        let Some(re) = regex_parse(pattern) else {
+            run.inconclusive(format!("reference matcher cannot parse the fixed pattern {:?}", pattern));
+            return;
+        };
+        let second = match reference_meta(pattern, 10 << 20, 2 << 20) {
+            Ok(m) => m,
+            Err(e) => {
+                run.inconclusive(format!("second reference rejects the fixed pattern {:?}: {}", pattern, e));
+                return;
+            }
+        };
+        let text = format!("str_m matches \"{}\"", regex_quote(pattern));
+        let ast = match parse_with(eng, &text, |_| {}) {
+            Ok(Ok(a)) => a,
+            other => {
+                run.violation(
+                    "C11/valid-regex-rejected/empty-matching",
+                    "regex-validity",
+                    "regex-empty-matches",
+                    i,
+                    json!({"filter": text, "outcome": format!("{:?}", other.map(|r| r.map(|_| ())))}),
+                );
+                return;
+            }
+        };
+        let filter = ast.compile();
+        let mut ctx = base_ctx(eng);
+        for v in &values {
+            l.evals += 1;
+            let want = regex_search(&re, v);
+            if want != second.is_match(v.as_slice()) {
+                l.count("references_disagree");
+                continue;
+            }
+            ctx.set_field_value(field, LhsValue::Bytes(v.clone().into())).unwrap();
+            match guard(|| filter.execute(&ctx)) {
+                Ok(Ok(b)) if b == want => l.count(if b { "regex_matches" } else { "regex_non_matches" }),
+                other => run.violation(
+                    "C11/regex-wrong-answer/empty-matching-pattern",
+                    "regex-matcher",
+                    "regex-empty-matches",
+                    i,
+                    json!({"filter": text, "pattern": pattern, "value": show_bytes(v), "expected": want,
+                           "got": format!("{:?}", other)}),
+                ),
+            }
+        }
+        run.distinct(hash_str(pattern));
+        run.sample("regex-empty-matches", 3, || json!({"pattern": pattern, "values": values.len()}));
+    });
+}
+
 pub fn run(run: &Run) {
     let eng = Eng::new(scalar_env(true));
     wildcard_family(run, &eng);
     regex_family(run, &eng);
+    regex_empty_family(run, &eng);
     limits_family(run, &eng);
 }
